@@ -1097,6 +1097,12 @@ pub mod verif {
             self.housekeep()
         }
 
+        /// What `run` does on its way out: tell every peer that this node leaves.
+        pub fn verif_shutdown(&mut self) {
+            let mut buffer = MsgBuffer::new(SPACE_BEFORE);
+            self.broadcast_msg(MESSAGE_TYPE_CLOSE, &mut buffer).ok();
+        }
+
         pub fn verif_is_connected(&self, addr: &SocketAddr) -> bool {
             self.peers.contains_key(addr)
         }
